@@ -10,9 +10,13 @@ CLAIMED = {
  'C01': ('partial: the byte-class / lookup tables, scheme perfect hash, drive-letter and dot-segment predicates and the delimiter / tab scanning kernels that both the fast and the slow parse path rely on are proved against predicates transcribed from the URL Standard (tables over all 256 bytes, scanners for any length by loop contracts, SIMD kernels incl. the overlapping 16-byte tail); whole-parser equivalence with the Standard is NOT decided', '5 C01'),
  'C02': ('partial: every obligation of every property runs with CBMC bounds / pointer / pointer-overflow / signed-overflow / shift / division checks on the extracted code, string_view and std::string preconditions as assertions, and decreases clauses on contracted loops; covers the functions under contract only', '5 C02'),
  'C03': ('partial: for each url_aggregator setter, with all editing callees abstracted by contracts that allow arbitrary effects: a setter that reports failure restores the object exactly, the length limit holds at every exit, the object stays valid; plus the refusal/atomicity contract of the state-override scheme parser and parse_host success => valid. Equality with the Standard\'s API setters as a whole is NOT decided', '5 C03'),
+ 'C05': ('partial: byte lemmas over the real encode sets (unencoded bytes are printable ASCII, the escape alphabet is never re-encoded), IPv4 serialize/parse identity over all 2^32 addresses, IPv6 serializer == Standard over all 2^128; parse(href(parse(x))) as a whole is NOT decided', '5 C05'),
  'C07': ('bounded: a representation invariant WF (offsets partition the href, delimiters in place, port digits = value) is preserved by each editor of the single-buffer URL and the whole abstract view changes exactly as specified, the real getters return the slices WF delimits, re-assembly reproduces the href, and validate() accepts every WF object -- for all aggregators with href up to the stated capacity (10 quick / 14-16 thorough)', '5 C07'),
- 'C10': ('partial: IPv4 number parser, fast dotted-decimal parser (domain-complete), ends-in-a-number checker, DNS length rule and host delimiter scan are checked against executable reference specifications written from the Standard\'s prose; host_type truthfulness and the IPv6 parser are not decided yet', '5 C10'),
+ 'C09': ('every exit of the parser state machine (loops cut by the Hoare rule, sub-parsers and editors abstract) and every exit of every url_aggregator setter keeps the href within the configured maximum length, for every limit L; oversized input is refused', '5 C09'),
+ 'C10': ('partial: IPv4 number parser, fast dotted-decimal parser (domain-complete, also for the AVX-512 kernel), ends-in-a-number checker, DNS length rule, host delimiter scan and both IP serializers are checked against executable reference specifications written from the Standard\'s prose; host kind is truthful after parse_host and when inherited from a base; the IPv6 parser is not decided yet', '5 C10'),
  'C11': ('the seven percent-encode sets and the escape table are proved equal to the Standard\'s definitions for all 256 byte values; the first-byte-to-encode scanner is proved for any length; all four encoder entry points and both decoders equal reference implementations for an arbitrary 256-bit set on bounded inputs', '5 C11'),
+ 'C17': ('wrapper layer: each of 32 url wrappers of the C API is proved to return null/empty/false without invoking anything on a failed-parse handle, and otherwise to invoke exactly the corresponding C++ operation with (data,length) passed through and its result returned unchanged; copy/free/owned-string life cycle is leak-free. The C++ operations themselves are other properties; the search-params wrappers are not covered', '5 C17'),
+ 'C18': ('partial: the SSSE3 delimiter / tab kernels and the AVX-512 IPv4 kernel satisfy the same functional contracts as the SSE2 / scalar ones (deterministic contract => identical results); development-check assertions and the amalgamated build are not decided yet', '5 C18'),
 }
 NA = {
  'C13': 'quantifies over thread schedules and memory orderings; CBMC function contracts (DFCC) are sequential and no concurrent separation-logic verifier is installed; interleaving enumeration would be model checking, a different family',
